@@ -282,18 +282,18 @@ package oauth2
 //@ spec func expired_at(exp time.Time, reqAt time.Time, life time.Duration, now time.Time) bool = exp == 0 ? reqAt + life < now : exp < now
 
 //@ func (*HMACSHAStrategyUnPrefixed).ValidateAccessToken
-//@   requires h != nil && r != nil
+//@   requires h != nil && r != nil && h.Enigma != nil
 //@   ensures [C07.access-token-expiry] err == nil ==> $now >= old($now) && !expired_at(r.GetSession().GetExpiresAt(fosite.AccessToken), r.GetRequestedAt(), h.Config.GetAccessTokenLifespan(ctx), $now)
 //@   ensures [C06.access-token-authentic] err == nil ==> authentic(h.Enigma, token)
 
 //@ func (*HMACSHAStrategyUnPrefixed).ValidateAuthorizeCode
-//@   requires h != nil && r != nil
+//@   requires h != nil && r != nil && h.Enigma != nil
 //@   ensures [C07.authorize-code-expiry] err == nil ==> $now >= old($now) && !expired_at(r.GetSession().GetExpiresAt(fosite.AuthorizeCode), r.GetRequestedAt(), h.Config.GetAuthorizeCodeLifespan(ctx), $now)
 //@   ensures [C06.authorize-code-authentic] err == nil ==> authentic(h.Enigma, token)
 
 // Refresh tokens: only a session-provided expiry limits them (lifespan -1 = unlimited leaves it unset).
 //@ func (*HMACSHAStrategyUnPrefixed).ValidateRefreshToken
-//@   requires h != nil && r != nil
+//@   requires h != nil && r != nil && h.Enigma != nil
 //@   ensures [C07.refresh-token-expiry] err == nil && r.GetSession().GetExpiresAt(fosite.RefreshToken) != 0 ==> $now >= old($now) && !(r.GetSession().GetExpiresAt(fosite.RefreshToken) < $now)
 //@   ensures [C06.refresh-token-authentic] err == nil ==> authentic(h.Enigma, token)
 
@@ -305,10 +305,19 @@ package oauth2
 //@   ensures [C06.signature-is-second-part] result == hmacsig(token)
 
 //@ func (*HMACSHAStrategyUnPrefixed).GenerateAccessToken
+//@   requires h != nil && h.Enigma != nil && held[addr(h.Enigma.Mutex)] == 0 && (forall m2 V :: held[m2] != 0 ==> mrank(m2) < mrank(addr(h.Enigma.Mutex)))
+//@   modifies held
+//@   ensures [C19.locks-released] held == old(held)
 //@   ensures [C06.generate-shape] err == nil ==> token != "" && signature == hmacsig(token) && authentic(h.Enigma, token)
 //@ func (*HMACSHAStrategyUnPrefixed).GenerateRefreshToken
+//@   requires h != nil && h.Enigma != nil && held[addr(h.Enigma.Mutex)] == 0 && (forall m2 V :: held[m2] != 0 ==> mrank(m2) < mrank(addr(h.Enigma.Mutex)))
+//@   modifies held
+//@   ensures [C19.locks-released] held == old(held)
 //@   ensures [C06.generate-shape] err == nil ==> token != "" && signature == hmacsig(token) && authentic(h.Enigma, token)
 //@ func (*HMACSHAStrategyUnPrefixed).GenerateAuthorizeCode
+//@   requires h != nil && h.Enigma != nil && held[addr(h.Enigma.Mutex)] == 0 && (forall m2 V :: held[m2] != 0 ==> mrank(m2) < mrank(addr(h.Enigma.Mutex)))
+//@   modifies held
+//@   ensures [C19.locks-released] held == old(held)
 //@   ensures [C06.generate-shape] err == nil ==> token != "" && signature == hmacsig(token) && authentic(h.Enigma, token)
 
 // Prefixed strategy: validation strips exactly its own prefix and then applies the rules above.
@@ -317,15 +326,15 @@ package oauth2
 //@ func (*HMACSHAStrategy).trimPrefix
 //@   ensures [C06.prefix-stripped] result == strings.TrimPrefix(token, h.getPrefix(part))
 //@ func (*HMACSHAStrategy).ValidateAccessToken
-//@   requires h != nil && r != nil && h.HMACSHAStrategyUnPrefixed != nil
+//@   requires h != nil && r != nil && h.HMACSHAStrategyUnPrefixed != nil && h.HMACSHAStrategyUnPrefixed.Enigma != nil
 //@   ensures [C07.access-token-expiry] err == nil ==> $now >= old($now) && !expired_at(r.GetSession().GetExpiresAt(fosite.AccessToken), r.GetRequestedAt(), h.HMACSHAStrategyUnPrefixed.Config.GetAccessTokenLifespan(ctx), $now)
 //@   ensures [C06.access-token-authentic] err == nil ==> authentic(h.HMACSHAStrategyUnPrefixed.Enigma, strings.TrimPrefix(token, h.getPrefix("at")))
 //@ func (*HMACSHAStrategy).ValidateAuthorizeCode
-//@   requires h != nil && r != nil && h.HMACSHAStrategyUnPrefixed != nil
+//@   requires h != nil && r != nil && h.HMACSHAStrategyUnPrefixed != nil && h.HMACSHAStrategyUnPrefixed.Enigma != nil
 //@   ensures [C07.authorize-code-expiry] err == nil ==> $now >= old($now) && !expired_at(r.GetSession().GetExpiresAt(fosite.AuthorizeCode), r.GetRequestedAt(), h.HMACSHAStrategyUnPrefixed.Config.GetAuthorizeCodeLifespan(ctx), $now)
 //@   ensures [C06.authorize-code-authentic] err == nil ==> authentic(h.HMACSHAStrategyUnPrefixed.Enigma, strings.TrimPrefix(token, h.getPrefix("ac")))
 //@ func (*HMACSHAStrategy).ValidateRefreshToken
-//@   requires h != nil && r != nil && h.HMACSHAStrategyUnPrefixed != nil
+//@   requires h != nil && r != nil && h.HMACSHAStrategyUnPrefixed != nil && h.HMACSHAStrategyUnPrefixed.Enigma != nil
 //@   ensures [C07.refresh-token-expiry] err == nil && r.GetSession().GetExpiresAt(fosite.RefreshToken) != 0 ==> $now >= old($now) && !(r.GetSession().GetExpiresAt(fosite.RefreshToken) < $now)
 //@   ensures [C06.refresh-token-authentic] err == nil ==> authentic(h.HMACSHAStrategyUnPrefixed.Enigma, strings.TrimPrefix(token, h.getPrefix("rt")))
 
